@@ -8,7 +8,7 @@ the Coq model's behaviour vector is compared with the behaviour observed on the
 implementation (correspondence), and the direct predicate (observed nested
 behaviour == behaviour under effective) is evaluated on every configuration.
 """
-import json, itertools
+import json, itertools, os
 from lib.coqrun import coq_str, coq_list
 
 META = {
@@ -22,17 +22,27 @@ META = {
     'theorems': ['C12_tables', 'C12_or_left_wins', 'C12_or_fallback', 'C12_or_special', 'C12_or_special_not_inherited',
                  'C12_or_abstract_left', 'C12_and_overlay', 'C12_effective_nonrecursive', 'C12_effective_get',
                  'C12_cascade', 'C12_cascade_complete', 'C12_behaviour', 'C12_auto_tags_partial', 'C12_auto_tags_refuted',
-                 'C12_engines_agree', 'C12_history_fresh', 'C12_history_independent', 'C12_history_refuted', 'C12_auto_tags_byvalue_partial'],
+                 'C12_engines_agree', 'C12_history_fresh', 'C12_history_independent', 'C12_history_refuted', 'C12_auto_tags_byvalue_partial',
+                 'C12_table_invariant', 'C12_table_cascade', 'C12_table_effective', 'C12_table_tag', 'C12_table_tag_persists_refuted',
+                 'C12_table_parsers_frozen_refuted'],
     'tables': ['MetaFields'],
     'level_text': ('Theorems proved in Coq for ALL Meta contents (any values, any subset of the settings table regenerated from '
                    'AbstractMeta), ALL nesting shapes (Optional, list, dict value, tuple, Union, intermediate dataclasses with their own '
                    'Meta, any depth) and the three engines: the meta a nested class is generated under is effective(own, root), and the '
                    'observable behaviour derived from it by bind_to equals the behaviour of a stand-alone class with Meta = effective. '
                    'One component is refuted: auto_assign_tags is read from the root config instead of the merged Meta (finding '
-                   'F22, open), proved only outside that region. The model is re-validated against the implementation on every run.'),
+                   'F22, open), proved only outside that region. Multi-root histories over the global _META table (any class graph, any number of '
+                   'roots sharing nested classes, user-level bindings incl. the `&=` in-place merge, first loads / first dumps by any engine in any '
+                   'order): by induction over the history, the library\'s own writes (auto-created Metas, meta.tag = name) never add, change or remove '
+                   'a user-level setting of any class, so every nested class is generated under effective(declared_own, declared root Meta) on every '
+                   'setting but `tag`; `tag` is the declared one or the auto-assigned class name (its persistence across roots and the default '
+                   'engine\'s cached field parsers are refuted / listed findings). The model is re-validated against the implementation on every run, '
+                   'including the implementation\'s _META table after every operation of every generated history.'),
     'level_note': ('Trusted: Coq kernel + vm_compute; the hand-written model coq/model/MetaMerge.v (class __dict__ as association list, '
                    'getattr = own entry else AbstractMeta default; no user-defined intermediate Meta base classes, no global Meta); the '
-                   'harness. Global-table leaks across configurations (F10/F11) belong to C07: every configuration runs in a fresh interpreter.'),
+                   'harness. Single-root configurations run in a fresh interpreter each; multi-root histories run in ONE interpreter per history '
+                   'and are compared with the same root alone in a pristine interpreter. The per-class global tables that make a later root see an '
+                   'earlier one (C07\'s F10) are modelled faithfully (Coq: gstate / t_parsed; harness: leaky_effective / MultiSim) and listed as findings.'),
     'rule': ('configurations = pairwise covering array (greedy, seeded) over factors: per mergeable setting the pair (root value, nested value) '
              'in {unset,A,B}^2, root recursive in {unset,True,False}, nested recursive, tags, explicit key maps, presence of a Meta at all, '
              'binding style (inner Meta class / LoadMeta-DumpMeta), CatchAll, probe kind (basic / Union-of-dataclasses field), nesting shape '
@@ -41,10 +51,23 @@ META = {
              'root Meta bound in one step / split in two with a use of the other engine in between, dump-side by-value shapes (list / Any / Dict[str, Any]), '
              'per engine (default load, dump, v1 load); '
              'thorough adds the full product shape x recursive on sampled rows. distinct = distinct configuration JSON; non-trivial = root has a '
-             'Meta and at least one observed setting is set on root or nested.'),
+             'Meta and at least one observed setting is set on root or nested. MULTI-ROOT HISTORIES (one interpreter each): (a) systematic: per cascading '
+             'setting (key_transform_with_dump, marshal_date_time_as, skip_defaults, raise_on_unknown_json_key / v1_on_unknown_key, tag_key, auto_assign_tags) '
+             'two roots with the two values x auto_assign_tags on/off per root x orders of the first dump / first load of both roots (sampled permutations in '
+             'quick, all 24 in thorough) over shared N (with a Union[UA, UB, None]) and the roots\' own Unions; (b) random: 2..3 roots, any declared Metas on '
+             'UA/UB/N/M (none / explicit tag / settings; inner Meta, LoadMeta, DumpMeta, LoadMeta+DumpMeta), shapes direct/Optional/List/Dict/Tuple/'
+             'intermediate class/none, definitions and later user bindings interleaved with the uses; every first dump / first load is also run alone in a '
+             'pristine interpreter; non-trivial = at least two uses.'),
     'trusted_base': ['model coq/model/MetaMerge.v: Meta class = association list of its own __dict__ settings; getattr falls back to the '
-                     'AbstractMeta defaults table (validated by the correspondence run)'],
+                     'AbstractMeta defaults table (validated by the correspondence run)',
+                     'model coq/model/MetaMergeTable.v: _META as a table class -> own settings, user bindings, auto-tag writes of UnionParser / load_to_union, '
+                     'the default engine\'s parser cache; dump walks a value that inhabits every dataclass position (its _META snapshots are compared with '
+                     'the implementation\'s after every operation)',
+                     'harness MultiSim (Python): per-class global tables of the unchanged tree, used only to recognise the listed leak findings'],
     'assumptions': ['one interpreter per configuration; earlier uses of the nested class inside it are a generated dimension (history)',
+                    'multi-root histories: Meta objects are not shared between classes (no `m = LoadMeta(..); m.bind_to(A); m.bind_to(B)`, no subclassing of a '
+                    'class with an inner Meta: C06); Union members do not set auto_assign_tags / tag_key themselves (C13: F62, F63); a root with recursive=False '
+                    'does not set tag_key; load documents use exact field names (key transforms on load under histories: single-root history dimension)',
                     'Meta classes are direct subclasses of JSONWizard.Meta or LoadMeta/DumpMeta results (settings live in the class own __dict__); no global (outer) Meta',
                     'Union shape: the nested member carries its own tag and does not set a tag_key different from the one the containing Union reads (C13 domain)',
                     'debug_enabled / v1_debug / recursive_classes / v1_unsafe_parse_dataclass_in_union are merged by the proved algebra but not observed end-to-end'],
@@ -722,6 +745,20 @@ def run(ctx):
         ctx.known_finding(f['id'], still_fails=bad is not None,
                           what='%s [observed: %s]' % (f['what'][:400], (bad or 'behaves as effective')[:160].replace('\n', ' ')))
 
+    for f in ctx.findings():
+        w = f.get('witness')
+        if not isinstance(w, dict) or 'scenario' not in w or f['id'] not in (F10P_ID, F10T_ID):
+            continue
+        bad0, obs, spec, simo, _ = m_eval_step(ctx, w['scenario'], w['step'])
+        ctx.count(1, key='witness:' + f['id'])
+        fails = bad0 is not None or obs != spec
+        if fails and obs != simo:
+            ctx.broken_tie('witness of %s: the table simulation no longer predicts the implementation' % f['id'], {'obs': obs, 'sim': simo})
+        ctx.known_finding(f['id'], still_fails=fails,
+                          what='%s [observed: %s; under effective(declared): %s]' % (f['what'][:400], json.dumps(obs)[:200], json.dumps(spec)[:200]))
+
+    run_multi(ctx)
+
     cfgs = gen_configs(ctx)
     results = ctx.impl('c12', {'configs': cfgs, 'jobs': 14}, timeout=1500)['results']
 
@@ -813,7 +850,1107 @@ def run(ctx):
     ctx.notes.append('each of the %d configurations ran in its own interpreter' % len(cfgs))
 
 
+# ======================================================================================
+# MULTI-ROOT HISTORIES over the global _META table (one interpreter per history)
+#
+# Classes of a scenario: UA, UB (leaf members of Unions), N (optionally with `u: Union[UA, UB, None]`), M (`inner: N`),
+# roots R1..R3 (`n: <shape over N / M>`, optionally their own `v: Union[UA, UB, None]`).  Every class has the Meta the
+# USER declares (or none).  Operations, in any order: define a root | a later LoadMeta/DumpMeta(...).bind_to(class)
+# (`_META[cls] &= ...`) | first dump of a root | first load of a root.
+#   * P0 (direct, on the implementation's own _META table): after every operation the own settings of every class's
+#     registered Meta are the declared ones, plus at most `tag = <class name>` (auto-tag bookkeeping).
+#   * P1 (direct): outcome of every first dump / first load == the history-free reference under
+#     effective(declared_own(class), declared Meta(root)).
+#   * P2 (direct): outcome == outcome of the same root and operation ALONE in a pristine interpreter.
+#   * correspondence: the Coq table model (MetaMergeTable.run_hist) predicts the _META snapshot after every operation;
+#     the Python table simulation (MultiSim: the listed per-class global tables of finding F10-C12 / F22 / F23)
+#     predicts every outcome.
+MULTI_SETTINGS = {
+    'v0': {'key_transform_with_dump': ['SNAKE', 'PASCAL'], 'marshal_date_time_as': ['ISO_FORMAT', 'TIMESTAMP'],
+           'skip_defaults': [True, False], 'raise_on_unknown_json_key': [True, False], 'tag_key': ['kA', 'kB'],
+           'auto_assign_tags': [True, False]},
+    'v1': {'v1_on_unknown_key': ['RAISE', 'IGNORE'], 'tag_key': ['kA', 'kB'], 'auto_assign_tags': [True, False]},
+}
+M_FIELDS = {'UA': [('my_val', 7, 0), ('dflt', 5, 5)], 'UB': [('my_val', 7, 0), ('dflt', 5, 5)],
+            'N': [('my_val', 7, 0), ('when', 'WHEN', 'WHEN0'), ('dflt', 5, 5)], 'M': [('my_val', 7, 0)], 'R': [('my_val', 7, 0)]}
+WHEN0_ISO = '2000-01-01T00:00:00+00:00'
+MULTI_SHAPES = [[], ['opt'], ['list'], ['dict'], ['tuple'], ['mid'], ['list', 'mid'], ['dict', 'opt']]
+SPECIAL = NEVER_INHERITED
+NULL = '<ExplicitNull>'
+
+
+class Outcome(Exception):
+    """an error outcome (exception class name) of the reference / simulation"""
+
+
+def m_decl(sc, c):
+    if c in sc['classes']:
+        return sc['classes'][c]['meta']
+    return [r for r in sc['roots'] if r['name'] == c][0]['meta']
+
+
+def m_root(sc, name):
+    return [r for r in sc['roots'] if r['name'] == name][0]
+
+
+def m_field_names(sc, c):
+    if c in ('UA', 'UB'):
+        return ['my_val', 'dflt']
+    if c == 'N':
+        return ['my_val', 'when', 'dflt'] + (['u'] if sc['classes']['N'].get('union') else [])
+    if c == 'M':
+        return ['inner', 'my_val']
+    r = m_root(sc, c)
+    return (['n'] if r.get('shape') is not None else []) + ['my_val'] + (['v'] if r.get('v') else [])
+
+
+def m_wrap(shape, leaf, mid):
+    if not shape:
+        return leaf
+    h, rest = shape[0], shape[1:]
+    if h == 'mid':
+        return mid(leaf)
+    inner = m_wrap(rest, leaf, mid)
+    return {'opt': inner, 'list': [inner], 'dict': {'k': inner}, 'tuple': [inner, 1]}[h]
+
+
+def m_plain(c):
+    """canonical outcome (harness/impl/_util.canon) -> plain comparable structure."""
+    if isinstance(c, dict):
+        if 'inst' in c:
+            return {'<%s>' % c['inst']: {k: m_plain(v) for k, v in c['fields'].items()}}
+        if 'dict' in c:
+            return {m_plain(k): m_plain(v) for k, v in c['dict']}
+        for t in ('list', 'tuple'):
+            if t in c:
+                return [m_plain(x) for x in c[t]]
+        if 'int' in c:
+            return int(c['int'])
+        for t in ('str', 'bool', 'datetime'):
+            if t in c:
+                return c[t]
+        if 'err' in c:
+            return 'ERR:' + c['err']
+        if 'ok' in c:
+            return m_plain(c['ok'])
+    return c
+
+
+def m_update_decl(decl, c, meta):
+    """the USER binds Meta `meta` to class c (class definition, LoadMeta/DumpMeta(...).bind_to): first binding registers
+    it, a further one overlays every setting it carries."""
+    if meta is None:
+        return
+    if decl.get(c) is None:
+        decl[c] = dict(meta)
+    else:
+        decl[c].update(meta)
+
+
+# ---- the history-free reference (transcribed from the property text) ------------------------------------------
+class MultiSpec:
+    def __init__(self, sc, decl):
+        self.sc, self.decl, self.fam = sc, decl, sc['family']
+
+    def eff(self, c, rname):
+        rm = self.decl.get(rname)
+        if c == rname:
+            return dict(rm or {})
+        return effective(self.decl.get(c), rm)
+
+    def member_tag(self, holder, member, rname):
+        """documented: an explicit tag, else the class name when auto_assign_tags is in effect for the class that
+        contains the Union."""
+        d = self.decl.get(member) or {}
+        if d.get('tag'):
+            return d['tag']
+        return member if self.eff(holder, rname).get('auto_assign_tags') else None
+
+    def dump_obj(self, c, rname, tag=None):
+        e = self.eff(c, rname)
+        if tag and not e.get('tag'):
+            e = dict(e, tag=tag)
+        fields = M_FIELDS['R' if c == rname else c]
+        out = {}
+        r = m_root(self.sc, rname)
+        if c == rname and r.get('shape') is not None:
+            out[dump_key('n', e.get('key_transform_with_dump'))] = m_wrap(
+                r['shape'], self.dump_obj('N', rname), lambda leaf: self.dump_mid(leaf, rname))
+        for k, v in ref_dump(dict(e, tag=None), fields):
+            out[k] = int(v['int']) if 'int' in v else v['str']
+        if c == 'N' and self.sc['classes']['N'].get('union'):
+            out[dump_key('u', e.get('key_transform_with_dump'))] = self.dump_obj('UB', rname, self.member_tag('N', 'UB', rname))
+        if c == rname and r.get('v'):
+            out[dump_key('v', e.get('key_transform_with_dump'))] = self.dump_obj('UA', rname, self.member_tag(rname, 'UA', rname))
+        if e.get('tag'):
+            out[tag_key_of(e)] = e['tag']
+        return out
+
+    def dump_mid(self, leaf, rname):
+        e = self.eff('M', rname)
+        out = {dump_key('inner', e.get('key_transform_with_dump')): leaf}
+        for k, v in ref_dump(dict(e, tag=None), M_FIELDS['M']):
+            out[k] = int(v['int'])
+        if e.get('tag'):
+            out[tag_key_of(e)] = e['tag']
+        return out
+
+    def raises(self, e):
+        return bool(e.get('raise_on_unknown_json_key')) if self.fam == 'v0' else e.get('v1_on_unknown_key') == 'RAISE'
+
+    def load_obj(self, c, doc, rname, tagged=False):
+        e = self.eff(c, rname)
+        if not isinstance(doc, dict):
+            raise Outcome('ParseError')
+        vals = {'my_val': 0, 'dflt': 5, 'when': WHEN0_ISO, 'u': None, 'v': None}
+        out = {f: vals.get(f) for f in m_field_names(self.sc, c)}
+        seen = set()
+        for k, v in doc.items():
+            if k in out:
+                seen.add(k)
+                out[k] = self.load_field(c, k, v, rname)
+            elif (tagged or e.get('tag')) and k == tag_key_of(e):
+                continue
+            elif self.raises(e):
+                raise Outcome('UnknownKeysError')
+        for req in ('n', 'inner'):
+            if req in out and req not in seen:
+                raise Outcome('MissingFields')
+        return {'<%s>' % c: out}
+
+    def load_field(self, c, f, v, rname):
+        if f in ('my_val', 'dflt'):
+            return v
+        if f == 'inner':
+            return self.load_obj('N', v, rname)
+        if f == 'n':
+            return self.load_shape(m_root(self.sc, rname)['shape'], v, rname)
+        if f in ('u', 'v'):
+            if v is None:
+                return None
+            key = tag_key_of(self.eff(c, rname))
+            if isinstance(v, dict) and key in v:
+                for mbr in ('UA', 'UB'):
+                    t = self.member_tag(c, mbr, rname)
+                    if t and t == v[key]:
+                        return self.load_obj(mbr, v, rname, tagged=True)
+            raise Outcome('ParseError')
+        raise AssertionError(f)
+
+    def load_shape(self, shape, v, rname):
+        if not shape:
+            return self.load_obj('N', v, rname)
+        h, rest = shape[0], shape[1:]
+        if h == 'mid':
+            return self.load_obj('M', v, rname)
+        if h == 'opt':
+            return None if v is None else self.load_shape(rest, v, rname)
+        if h == 'list':
+            return [self.load_shape(rest, x, rname) for x in v]
+        if h == 'dict':
+            return {k: self.load_shape(rest, x, rname) for k, x in v.items()}
+        if h == 'tuple':
+            return [self.load_shape(rest, v[0], rname), v[1]]
+        raise AssertionError(h)
+
+
+def m_docs(sc, decl, rname):
+    """documents for the first load of a root: exact field names; Union values carry the tag the documentation
+    promises under the key the root's cascade provides; one document per class with an unknown key."""
+    spec = MultiSpec(sc, decl)
+    r = m_root(sc, rname)
+    mk = tag_key_of(effective(None, decl.get(rname)))
+
+    def member(c, holder, extra=None):
+        d = {'my_val': 2, mk: spec.member_tag(holder, c, rname) or c}
+        d.update(extra or {})
+        return d
+
+    def ndoc(union, extra=None, uextra=None):
+        d = {'my_val': 1}
+        if union and sc['classes']['N'].get('union'):
+            d['u'] = member('UB', 'N', uextra)
+        d.update(extra or {})
+        return d
+
+    def full(nd, extra=None, mextra=None):
+        d = {}
+        if r.get('shape') is not None:
+            d['n'] = m_wrap(r['shape'], nd, lambda leaf: dict({'inner': leaf, 'my_val': 3}, **(mextra or {})))
+        d.update(extra or {})
+        return d
+    docs = []
+    vfull = {'v': member('UA', rname)} if r.get('v') else {}
+    docs.append(full(ndoc(True), vfull))
+    if r.get('shape') is not None:
+        docs.append(full(ndoc(False, {'zzz': 0})))
+        if 'mid' in r['shape']:
+            docs.append(full(ndoc(False), None, {'zzz': 0}))
+        if sc['classes']['N'].get('union'):
+            docs.append(full(ndoc(True, None, {'zzz': 0})))
+    if r.get('v'):
+        docs.append(full(ndoc(False), {'v': member('UA', rname, {'zzz': 0})}))
+    docs.append(full(ndoc(False), {'zzz': 0}))
+    return docs
+
+
+# ---- the table simulation: what the UNCHANGED tree does (per-class global tables) ---------------------------------
+class MultiSim:
+    """Abstract interpreter of the tables the library keeps per class across roots: _META (own settings; the library
+    itself only ever adds `tag`), the dumper attribute / timestamp hooks written by bind_to, the dump-key table, the
+    default engine's cached field parsers (FIELD_NAME_TO_LOAD_PARSER: built under the FIRST config the class is loaded
+    with, holding the nested load functions generated then) and its json-key table (whitelisted tag keys, remembered
+    unknown keys).  v1 generates everything anew per root.  With `ideal` tables nothing survives, which must give
+    MultiSpec's outcomes (cross-checked on every scenario)."""
+
+    MECHANISMS = ('tables', 'parsers', 'tags')
+
+    def __init__(self, sc, off=()):
+        """off: mechanisms that do NOT survive from one operation to the next (used to attribute a deviation):
+        'tables' = dumper attribute / timestamp hooks / dump-key table, 'parsers' = cached field parsers + json-key
+        table of the default load engine, 'tags' = auto-assigned tags in the classes' own Metas."""
+        self.sc, self.fam, self.off = sc, sc['family'], set(off)
+        self.meta, self.dp, self.ts, self.dump_keys, self.j2f, self.parsers = {}, {}, {}, {}, {}, {}
+        self.user = []                       # user-level bindings so far (class, meta)
+        for c in ('UA', 'UB', 'N', 'M'):
+            self.define(c, sc['classes'][c]['meta'])
+
+    def begin_use(self):
+        """forget what the disabled mechanisms would have kept from earlier operations."""
+        if 'tables' in self.off:
+            self.dp, self.ts, self.dump_keys = {}, {}, {}
+            for c, m in self.user:
+                self.bind_tables(c, m)
+        if 'parsers' in self.off:
+            self.parsers = {}
+            self.j2f = {c: {} for c in self.j2f}
+        if 'tags' in self.off:
+            decl = {}
+            for c, m in self.user:
+                m_update_decl(decl, c, m)
+            for c in self.meta:
+                self.meta[c] = dict(decl[c]) if decl.get(c) is not None else None
+
+    def define(self, c, meta):
+        self.meta.setdefault(c, None)
+        self.j2f.setdefault(c, {})
+        if meta is not None:
+            self.user_bind(c, meta)
+
+    def user_bind(self, c, meta):
+        self.user.append((c, dict(meta)))
+        self.bind_tables(c, meta)
+        if self.meta.get(c) is None:
+            self.meta[c] = dict(meta)
+        else:
+            self.meta[c].update(meta)          # `_META[cls] &= other`
+
+    def bind_tables(self, c, m):
+        if m.get('key_transform_with_dump') is not None:
+            self.dp[c] = m['key_transform_with_dump']
+        if m.get('marshal_date_time_as') == 'TIMESTAMP':
+            self.ts[c] = True
+
+    def snapshot(self):
+        return {c: (dict(m) if m is not None else None) for c, m in self.meta.items()}
+
+    def config_of(self, rname):
+        m = self.meta.get(rname)
+        if self.fam == 'v1':
+            return m if (m or {}).get('recursive', True) else None
+        return m if (m is not None and m.get('recursive', True)) else None
+
+    def merged(self, c, config):
+        own = self.meta.get(c)
+        if config is None:
+            return dict(own or {})
+        out = {k: v for k, v in config.items() if k not in SPECIAL}
+        out.update(own or {})
+        return out
+
+    def assign_tag(self, c):
+        if self.meta.get(c) is None:
+            self.meta[c] = {'tag': c}
+        else:
+            self.meta[c]['tag'] = c
+
+    # -- default engine: load function generation
+    def field_types(self, c):
+        if c in ('UA', 'UB'):
+            return {}
+        if c == 'N':
+            return {'u': ('union',)} if self.sc['classes']['N'].get('union') else {}
+        if c == 'M':
+            return {'inner': ('cls', 'N')}
+        r = m_root(self.sc, c)
+        out = {}
+        if r.get('shape') is not None:
+            out['n'] = ('shape', r['shape'])
+        if r.get('v'):
+            out['v'] = ('union',)
+        return out
+
+    def build_parsers(self, c, config, save):
+        if c in self.parsers:
+            return self.parsers[c]
+        ps = {}
+        for f, t in self.field_types(c).items():
+            if t[0] == 'union':
+                up = {'tag_key': ((config.get('tag_key') or DEFAULT_TAG_KEY) if config is not None else DEFAULT_TAG_KEY), 'tags': {}}
+                auto = bool(config.get('auto_assign_tags')) if config is not None else False
+                for mbr in ('UA', 'UB'):
+                    fn = self.gen_load(mbr, config)           # the member's load function exists BEFORE its tag is assigned
+                    mm = self.meta.get(mbr) or {}
+                    tag = mm.get('tag')
+                    if not tag and (auto or mm.get('auto_assign_tags')):
+                        tag = mbr
+                        self.assign_tag(mbr)
+                    if tag:
+                        up['tags'][tag] = fn
+                ps[f] = ('union', up)
+            elif t[0] == 'cls':
+                ps[f] = ('cls', self.gen_load(t[1], config))
+            else:
+                leaf = 'M' if 'mid' in t[1] else 'N'
+                ps[f] = ('shape', t[1], self.gen_load(leaf, config))
+        if save:
+            self.parsers[c] = ps
+        return ps
+
+    def gen_load(self, c, config, main=False):
+        m = self.merged(c, None if main else config)
+        if not main and config is not None:
+            self.bind_tables(c, m)
+        ps = self.build_parsers(c, config, save=True)
+        if m.get('tag') is not None:
+            tk = m.get('tag_key', DEFAULT_TAG_KEY)
+            if tk not in m_field_names(self.sc, c):
+                self.j2f[c][tk] = NULL
+        return {'cls': c, 'raise': bool(m.get('raise_on_unknown_json_key')), 'parsers': ps}
+
+    def run_load(self, fn, doc):
+        c = fn['cls']
+        if not isinstance(doc, dict):
+            raise Outcome('ParseError')
+        j = self.j2f[c]
+        names = m_field_names(self.sc, c)
+        vals = {'my_val': 0, 'dflt': 5, 'when': WHEN0_ISO, 'u': None, 'v': None}
+        out = {f: vals.get(f) for f in names}
+        seen = set()
+        for k, v in doc.items():
+            if k in j:
+                f = j[k]
+            elif k in names:
+                f = j[k] = k
+            elif fn['raise']:
+                raise Outcome('UnknownKeysError')
+            else:
+                f = j[k] = NULL
+            if f is not NULL:
+                seen.add(f)
+                out[f] = self.run_parser(fn['parsers'].get(f), v)
+        for req in ('n', 'inner'):
+            if req in out and req not in seen:
+                raise Outcome('MissingFields')
+        return {'<%s>' % c: out}
+
+    def run_parser(self, p, v):
+        if p is None:
+            return v
+        if p[0] == 'cls':
+            return self.run_load(p[1], v)
+        if p[0] == 'union':
+            if v is None:
+                return None
+            up = p[1]
+            if isinstance(v, dict) and up['tag_key'] in v and v[up['tag_key']] in up['tags']:
+                return self.run_load(up['tags'][v[up['tag_key']]], v)
+            raise Outcome('ParseError')
+        return self.run_shape(p[1], p[2], v)
+
+    def run_shape(self, shape, fn, v):
+        if not shape or shape[0] == 'mid':
+            return self.run_load(fn, v)
+        h, rest = shape[0], shape[1:]
+        if h == 'opt':
+            return None if v is None else self.run_shape(rest, fn, v)
+        if h == 'list':
+            return [self.run_shape(rest, fn, x) for x in v]
+        if h == 'dict':
+            return {k: self.run_shape(rest, fn, x) for k, x in v.items()}
+        return [self.run_shape(rest, fn, v[0]), v[1]]
+
+    def load_v0(self, rname, docs):
+        config = self.config_of(rname)
+        m = self.merged(rname, None)
+        ps = self.build_parsers(rname, config, save=True)
+        if m.get('tag') is not None and m.get('tag_key', DEFAULT_TAG_KEY) not in m_field_names(self.sc, rname):
+            self.j2f[rname][m.get('tag_key', DEFAULT_TAG_KEY)] = NULL
+        fn = {'cls': rname, 'raise': bool(m.get('raise_on_unknown_json_key')), 'parsers': ps}
+        out = []
+        for d in docs:
+            try:
+                out.append(self.run_load(fn, d))
+            except Outcome as e:
+                out.append('ERR:' + e.args[0])
+        return out
+
+    # -- v1: everything is generated anew for the root
+    def load_v1(self, rname, docs):
+        config = self.config_of(rname)
+        try:
+            fn = self.gen_v1(rname, config, main=True)
+        except Outcome as e:
+            return ['ERR:' + e.args[0] for _ in docs]
+        out = []
+        for d in docs:
+            try:
+                out.append(self.run_v1(fn, d))
+            except Outcome as e:
+                out.append('ERR:' + e.args[0])
+        return out
+
+    def gen_v1(self, c, config, main=False):
+        m = self.merged(c, None if main else config)
+        ps = {}
+        for f, t in self.field_types(c).items():
+            if t[0] == 'union':
+                up = {'tag_key': ((config or {}).get('tag_key') or DEFAULT_TAG_KEY), 'tags': {}}
+                auto = bool((config or {}).get('auto_assign_tags'))
+                for mbr in ('UA', 'UB'):
+                    mm = self.meta.get(mbr) or {}
+                    tag = mm.get('tag')
+                    if not tag and (auto or mm.get('auto_assign_tags')):
+                        tag = mbr
+                        self.assign_tag(mbr)
+                    if not tag:
+                        raise Outcome('ValueError')     # "Cannot parse dataclass types in a Union without ..."
+                    up['tags'][tag] = self.gen_v1(mbr, config)
+                ps[f] = ('union', up)
+            elif t[0] == 'cls':
+                ps[f] = ('cls', self.gen_v1(t[1], config))
+            else:
+                ps[f] = ('shape', t[1], self.gen_v1('M' if 'mid' in t[1] else 'N', config))
+        skip = {m.get('tag_key', DEFAULT_TAG_KEY)} if m.get('tag') is not None else set()
+        return {'cls': c, 'raise': m.get('v1_on_unknown_key') == 'RAISE', 'parsers': ps, 'skip': skip}
+
+    def run_v1(self, fn, doc):
+        c = fn['cls']
+        if not isinstance(doc, dict):
+            raise Outcome('ParseError')
+        names = m_field_names(self.sc, c)
+        vals = {'my_val': 0, 'dflt': 5, 'when': WHEN0_ISO, 'u': None, 'v': None}
+        out = {f: vals.get(f) for f in names}
+        for f in names:                          # generated code reads the fields in declaration order
+            if f in doc:
+                p = fn['parsers'].get(f)
+                out[f] = self.run_parser_v1(p, doc[f])
+            elif f in ('n', 'inner'):
+                raise Outcome('MissingFields')
+        if fn['raise'] and any(k not in names and k not in fn['skip'] for k in doc):
+            raise Outcome('UnknownKeysError')
+        return {'<%s>' % c: out}
+
+    def run_parser_v1(self, p, v):
+        if p is None:
+            return v
+        if p[0] == 'cls':
+            return self.run_v1(p[1], v)
+        if p[0] == 'union':
+            if v is None:
+                return None
+            up = p[1]
+            if isinstance(v, dict) and up['tag_key'] in v and v[up['tag_key']] in up['tags']:
+                return self.run_v1(up['tags'][v[up['tag_key']]], v)
+            raise Outcome('ParseError')
+        return self.run_shape_v1(p[1], p[2], v)
+
+    def run_shape_v1(self, shape, fn, v):
+        if not shape or shape[0] == 'mid':
+            return self.run_v1(fn, v)
+        h, rest = shape[0], shape[1:]
+        if h == 'opt':
+            return None if v is None else self.run_shape_v1(rest, fn, v)
+        if h == 'list':
+            return [self.run_shape_v1(rest, fn, x) for x in v]
+        if h == 'dict':
+            return {k: self.run_shape_v1(rest, fn, x) for k, x in v.items()}
+        return [self.run_shape_v1(rest, fn, v[0]), v[1]]
+
+    # -- dump
+    def gen_dump(self, c, config, main=False):
+        m = self.merged(c, None if main else config)
+        if not main and config is not None:
+            self.bind_tables(c, m)
+        if c not in self.dump_keys:
+            self.dump_keys[c] = self.dp.get(c)          # the dump-key table is filled once, by the first dump function
+        if m.get('auto_assign_tags'):
+            self.build_parsers(c, config, save=False)   # dump-side auto-tag step (does not cache the class's own parsers)
+        return {'cls': c, 'keys': self.dump_keys[c], 'ts': bool(self.ts.get(c)), 'skip_defaults': bool(m.get('skip_defaults')),
+                'tag': m.get('tag'), 'tag_key': m.get('tag_key') or DEFAULT_TAG_KEY}
+
+    def dump_obj(self, c, config, main=False, rname=None):
+        fn = self.gen_dump(c, config, main)
+        e = {'key_transform_with_dump': fn['keys'], 'skip_defaults': fn['skip_defaults'],
+             'marshal_date_time_as': 'TIMESTAMP' if fn['ts'] else None}
+        out = {}
+        if main:
+            r = m_root(self.sc, c)
+            if r.get('shape') is not None:
+                out[dump_key('n', fn['keys'])] = self.dump_shape(r['shape'], config)
+        if c == 'M':
+            out[dump_key('inner', fn['keys'])] = self.dump_obj('N', config)
+        for k, v in ref_dump(e, M_FIELDS['R' if main else c]):
+            out[k] = int(v['int']) if 'int' in v else v['str']
+        if c == 'N' and self.sc['classes']['N'].get('union'):
+            out[dump_key('u', fn['keys'])] = self.dump_obj('UB', config)
+        if main and m_root(self.sc, c).get('v'):
+            out[dump_key('v', fn['keys'])] = self.dump_obj('UA', config)
+        if fn['tag']:
+            out[fn['tag_key']] = fn['tag']
+        return out
+
+    def dump_shape(self, shape, config):
+        if not shape:
+            return self.dump_obj('N', config)
+        h, rest = shape[0], shape[1:]
+        if h == 'mid':
+            return self.dump_obj('M', config)
+        inner = self.dump_shape(rest, config)
+        return {'opt': inner, 'list': [inner], 'dict': {'k': inner}, 'tuple': [inner, 1]}[h]
+
+    def dump(self, rname):
+        return self.dump_obj(rname, self.config_of(rname), main=True)
+
+
+def m_alone(sc, decl_at, op):
+    """the same root, the same operation, nothing else: the scenario for a pristine interpreter.  Classes carry the
+    Metas declared at that point of the history (a single binding each)."""
+    classes = {c: {'meta': decl_at.get(c), 'style': sc['classes'][c]['style'] if sc['classes'][c]['meta'] is not None else 'load',
+                   **({'union': True} if sc['classes'][c].get('union') else {})} for c in ('UA', 'UB', 'N', 'M')}
+    r = dict(m_root(sc, op['root']), meta=decl_at.get(op['root']))
+    if r['meta'] is not None and m_root(sc, op['root'])['meta'] is None:
+        r['style'] = 'load'
+    return {'kind': 'multi', 'family': sc['family'], 'classes': classes, 'roots': [r],
+            'ops': [{'op': 'define', 'root': r['name']}, dict(op)]}
+
+
+def m_declared_history(sc):
+    """declared Metas (what the USER bound) after every operation."""
+    decl = {c: (dict(sc['classes'][c]['meta']) if sc['classes'][c]['meta'] is not None else None) for c in ('UA', 'UB', 'N', 'M')}
+    out = []
+    for op in sc['ops']:
+        if op['op'] == 'define':
+            r = m_root(sc, op['root'])
+            decl.setdefault(r['name'], None)
+            m_update_decl(decl, r['name'], r['meta'])
+        elif op['op'] == 'bind':
+            m_update_decl(decl, op['cls'], op['meta'])
+        out.append({c: (dict(m) if m is not None else None) for c, m in decl.items()})
+    return out
+
+
+def m_finish(sc):
+    """fill in the load documents (they depend on the Metas declared at that point)."""
+    hist = m_declared_history(sc)
+    for op, decl in zip(sc['ops'], hist):
+        if op['op'] == 'load':
+            op['docs'] = m_docs(sc, decl, op['root'])
+    return sc
+
+
+def m_meta_for(fam, rng, keys, level):
+    m = {}
+    for k in keys:
+        lv = level(k)
+        if lv:
+            m[k] = MULTI_SETTINGS[fam][k][lv - 1]
+    return m
+
+
+def gen_multi(ctx):
+    quick = ctx.tier == 'quick'
+    rng = ctx.sub_rng('multi')
+    out = []
+
+    def classes(fam, rng, n_union, plain):
+        v1 = {'v1': True} if fam == 'v1' else {}
+        cs = {}
+        for c in ('UA', 'UB'):
+            kind = 'none' if plain else rng.choice(['none', 'none', 'tag', 'setting'])
+            meta = None
+            if kind == 'tag':
+                meta = dict({'tag': 'T' + c[1]}, **v1)
+            elif kind == 'setting':
+                k = rng.choice([s for s in MULTI_SETTINGS[fam] if s not in ('auto_assign_tags', 'tag_key')])
+                meta = dict({k: rng.choice(MULTI_SETTINGS[fam][k])}, **v1)
+            cs[c] = {'meta': meta, 'style': rng.choice(['inner', 'load', 'dump', 'split'])}
+        for c in ('N', 'M'):
+            meta = None
+            if not plain and rng.random() < 0.5:
+                ks = [s for s in MULTI_SETTINGS[fam] if not (c == 'N' and n_union and s == 'tag_key')]
+                meta = dict(m_meta_for(fam, rng, rng.sample(ks, rng.randrange(0, 3)), lambda k: rng.choice([1, 2])), **v1)
+                if rng.random() < 0.25:
+                    meta['tag'] = c + 'T'
+            cs[c] = {'meta': meta, 'style': rng.choice(['inner', 'load', 'dump', 'split'])}
+        cs['N']['union'] = n_union
+        return cs
+
+    def uses(fam, names):
+        kinds = ['load'] if fam == 'v1' else ['dump', 'load']
+        return [{'op': k, 'root': n} for n in names for k in kinds]
+
+    # (a) systematic: per cascading setting, two roots with the two values, every order of the first dump / first load
+    for fam in ('v0', 'v1'):
+        for s, vals in MULTI_SETTINGS[fam].items():
+            v1 = {'v1': True} if fam == 'v1' else {}
+            for auto in ((True, True), (True, False), (False, True)):
+                if s == 'auto_assign_tags' and auto != (True, True):
+                    continue
+                metas = []
+                for i in (0, 1):
+                    m = dict({s: vals[i]}, **v1)
+                    if s != 'auto_assign_tags':
+                        m['auto_assign_tags'] = auto[i]
+                    metas.append(m)
+                us = uses(fam, ['R1', 'R2'])
+                perms = list(itertools.permutations(us))
+                if quick:
+                    perms = rng.sample(perms, min(len(perms), 4 if auto == (True, True) else 2))
+                for perm in perms:
+                    roots = [{'name': 'R1', 'meta': metas[0], 'style': rng.choice(['inner', 'load', 'split']), 'shape': [], 'v': True},
+                             {'name': 'R2', 'meta': metas[1], 'style': rng.choice(['inner', 'load', 'split']),
+                              'shape': rng.choice(MULTI_SHAPES), 'v': True}]
+                    sc = {'kind': 'multi', 'family': fam, 'classes': classes(fam, rng, True, True), 'roots': roots,
+                          'ops': [{'op': 'define', 'root': 'R1'}, {'op': 'define', 'root': 'R2'}] + [dict(u) for u in perm]}
+                    out.append(m_finish(sc))
+    # (b) random: 2..3 roots, any declared Metas, definitions / later bindings interleaved with the uses
+    n_random = 60 if quick else 1500
+    for _ in range(n_random):
+        fam = rng.choice(['v0', 'v0', 'v1'])
+        v1 = {'v1': True} if fam == 'v1' else {}
+        n_union = rng.random() < 0.6
+        cs = classes(fam, rng, n_union, rng.random() < 0.3)
+        roots = []
+        for i in range(rng.choice([2, 2, 3])):
+            meta = None
+            if fam == 'v1' or rng.random() < 0.85:
+                ks = list(MULTI_SETTINGS[fam])
+                meta = dict(m_meta_for(fam, rng, ks, lambda k: rng.choice([0, 1, 2])), **v1)
+                if rng.random() < 0.15:
+                    meta['recursive'] = False
+                    meta.pop('tag_key', None)     # C13 domain: the key the root's own Union reads == the key its members write
+                if rng.random() < 0.15:
+                    meta['tag'] = 'RT'
+            roots.append({'name': 'R%d' % (i + 1), 'meta': meta, 'style': rng.choice(['inner', 'load', 'dump', 'split']),
+                          'shape': rng.choice(MULTI_SHAPES + [None]), 'v': rng.random() < 0.6})
+            if roots[-1]['shape'] is None:
+                roots[-1]['v'] = True
+        us = uses(fam, [r['name'] for r in roots])
+        rng.shuffle(us)
+        us = us[:rng.randrange(2, len(us) + 1)]
+        ops, defined = [], set()
+        for u in us:
+            if u['root'] not in defined:
+                ops.append({'op': 'define', 'root': u['root']})
+                defined.add(u['root'])
+            ops.append(u)
+        if rng.random() < 0.5:        # define everything up front instead
+            ops = [{'op': 'define', 'root': r['name']} for r in roots] + us
+        if rng.random() < 0.3:
+            # a later user-level binding on a nested class (the `&=` in-place merge), before any root is used
+            c = rng.choice(['UA', 'N', 'M'])
+            # (not marshal_date_time_as on a class that already sets it: a TIMESTAMP hook registered by the first binding is
+            #  never unregistered - rebinding semantics of the class itself, not the cascade)
+            ks = [s for s in MULTI_SETTINGS[fam] if s not in ('auto_assign_tags',) and not (c in ('N', 'UA') and s == 'tag_key')
+                  and not (s == 'marshal_date_time_as' and s in (cs[c]['meta'] or {}))]
+            k = rng.choice(ks)
+            first_use = min(i for i, o in enumerate(ops) if o['op'] in ('dump', 'load'))
+            ops.insert(rng.randrange(0, first_use + 1), {'op': 'bind', 'cls': c, 'meta': dict({k: rng.choice(MULTI_SETTINGS[fam][k])}, **v1),
+                                                         'style': rng.choice(['load', 'dump'])})
+        sc = {'kind': 'multi', 'family': fam, 'classes': cs, 'roots': roots, 'ops': ops}
+        out.append(m_finish(sc))
+    seen, res = set(), []
+    for sc in out:
+        k = json.dumps(sc, sort_keys=True)
+        if k not in seen:
+            seen.add(k)
+            res.append(sc)
+    return res
+
+
+def m_spec_outcome(sc, decl, op):
+    spec = MultiSpec(sc, decl)
+    if op['op'] == 'dump':
+        return spec.dump_obj(op['root'], op['root'])
+    out = []
+    if sc['family'] == 'v1':
+        # documented (v1): a dataclass in a Union without a tag (explicit or auto-assigned) cannot be parsed -> ValueError
+        # when the load function of the root is generated
+        r = m_root(sc, op['root'])
+        holders = ([op['root']] if r.get('v') else []) + (['N'] if r.get('shape') is not None and sc['classes']['N'].get('union') else [])
+        if any(spec.member_tag(h, mbr, op['root']) is None for h in holders for mbr in ('UA', 'UB')):
+            return ['ERR:ValueError' for _ in op['docs']]
+    for d in op['docs']:
+        try:
+            out.append(spec.load_obj(op['root'], d, op['root']))
+        except Outcome as e:
+            out.append('ERR:' + e.args[0])
+    return out
+
+
+def m_observed(op, step):
+    if 'error' in step:
+        return 'ERR:' + step['error']['err']
+    if op['op'] == 'dump':
+        return m_plain(step['result'])
+    return [m_plain(x) for x in step['results']]
+
+
+def m_sim_run(sc, off=()):
+    """predicted (_META snapshot, outcome) after every operation."""
+    sim = MultiSim(sc, off)
+    out = []
+    for op in sc['ops']:
+        o = None
+        if op['op'] in ('dump', 'load'):
+            sim.begin_use()
+        if op['op'] == 'define':
+            r = m_root(sc, op['root'])
+            sim.define(r['name'], r['meta'])
+        elif op['op'] == 'bind':
+            sim.user_bind(op['cls'], op['meta'])
+        elif op['op'] == 'dump':
+            o = sim.dump(op['root'])
+        else:
+            o = (sim.load_v1 if sc['family'] == 'v1' else sim.load_v0)(op['root'], op['docs'])
+        out.append((sim.snapshot(), o))
+    return out
+
+
+def m_check_snapshot(snap, decl):
+    """P0: the own settings of every registered Meta are the declared ones plus at most tag = <class name>."""
+    for c, own in snap.items():
+        d = decl.get(c)
+        if own is None:
+            if d:
+                return 'class %s: declared Meta %r is not registered' % (c, d)
+            continue
+        for k, v in own.items():
+            if d is not None and k in d:
+                if v != d[k]:
+                    return 'class %s: own setting %s = %r, the user declared %r' % (c, k, v, d[k])
+            elif k == 'tag':
+                if v != c:
+                    return 'class %s: tag %r written by the library is not the class name' % (c, v)
+            else:
+                return 'class %s: the library wrote the user-level setting %s = %r into the class\'s own Meta (declared: %r)' % (c, k, v, d)
+        for k in (d or {}):
+            if k not in own:
+                return 'class %s: declared setting %s is missing from the registered Meta' % (c, k)
+    return None
+
+
+def m_in_F22(sc, decl, rname):
+    """F22: the class that contains a Union sets auto_assign_tags itself, differently from what the root's CASCADING config
+    provides (the Union parser reads extras['config']).  The containing class may be the root itself: with recursive=False
+    there is no config at all, so the root's own auto_assign_tags=True is ignored for its own Union fields."""
+    rm = decl.get(rname)
+    r = m_root(sc, rname)
+    provided = False if (rm is None or rm.get('recursive', True) is False) else bool(rm.get('auto_assign_tags', False))
+    holders = []
+    if sc['classes']['N'].get('union') and r.get('shape') is not None:
+        holders.append((decl.get('N') or {}).get('auto_assign_tags'))
+    if r.get('v'):
+        holders.append((rm or {}).get('auto_assign_tags'))
+    return any(own is not None and bool(own) != provided for own in holders)
+
+
+def m_in_F23(sc, decl, op):
+    """F23 (C13): default engine, first LOAD; a Union member without an explicit tag gets its tag auto-assigned after its
+    load function was generated, so that function treats the tag key as unknown: visible when the member raises on
+    unknown keys."""
+    if sc['family'] != 'v0' or op['op'] != 'load':
+        return False
+    spec = MultiSpec(sc, decl)
+    rname = op['root']
+    r = m_root(sc, rname)
+    holders = ([(rname, 'UA')] if r.get('v') else []) + ([('N', 'UB')] if r.get('shape') is not None and sc['classes']['N'].get('union') else [])
+    rm = decl.get(rname)
+    root_auto = bool(rm and rm.get('recursive', True) is not False and rm.get('auto_assign_tags'))
+    return any(root_auto and not (decl.get(mbr) or {}).get('tag') and spec.raises(spec.eff(mbr, rname)) for h, mbr in holders)
+
+
+def coq_rty(shape):
+    if not shape:
+        return '(RClass (S "N"))'
+    h, rest = shape[0], shape[1:]
+    if h == 'mid':
+        return '(RClass (S "M"))'
+    inner = coq_rty(rest)
+    return {'opt': '(ROpt %s)', 'list': '(RList %s)', 'dict': '(RDict %s)', 'tuple': '(RTuple [%s; RScalar])'}[h] % inner
+
+
+def coq_multi(sc):
+    """Gallina: show_run <class declarations> <history> <class names>."""
+    union = '(RUnion [RClass (S "UA"); RClass (S "UB"); RScalar])'
+    decls = ['(S "UA", [RScalar])', '(S "UB", [RScalar])',
+             '(S "N", [RScalar%s])' % ('; ' + union if sc['classes']['N'].get('union') else ''),
+             '(S "M", [RClass (S "N"); RScalar])']
+    for r in sc['roots']:
+        fs = ([coq_rty(r['shape'])] if r.get('shape') is not None else []) + ['RScalar'] + ([union] if r.get('v') else [])
+        decls.append('(%s, %s)' % (coq_str(r['name']), coq_list(fs)))
+    ops = []
+    for c in ('UA', 'UB', 'N', 'M'):
+        if sc['classes'][c]['meta'] is not None:
+            ops.append('HBind %s %s' % (coq_str(c), coq_cmeta(sc['classes'][c]['meta'])[6:-1]))
+    for op in sc['ops']:
+        if op['op'] == 'define':
+            r = m_root(sc, op['root'])
+            ops.append('HBind %s %s' % (coq_str(r['name']), coq_cmeta(r['meta'])[6:-1]) if r['meta'] is not None else 'HNop')
+        elif op['op'] == 'bind':
+            ops.append('HBind %s %s' % (coq_str(op['cls']), coq_cmeta(op['meta'])[6:-1]))
+        else:
+            eng = 'DumpV0' if op['op'] == 'dump' else ('LoadV1' if sc['family'] == 'v1' else 'LoadV0')
+            ops.append('HUse %s %s' % (eng, coq_str(op['root'])))
+    names = ['UA', 'UB', 'N', 'M'] + [r['name'] for r in sc['roots']]
+    n_pre = sum(1 for c in ('UA', 'UB', 'N', 'M') if sc['classes'][c]['meta'] is not None)
+    return 'show_run 40 %s %s %s' % (coq_list(decls), coq_list(ops), coq_list([coq_str(n) for n in names])), n_pre
+
+
+def sval_text(v):
+    if v is None:
+        return 'None'
+    if isinstance(v, bool):
+        return 'True' if v else 'False'
+    if isinstance(v, str):
+        return 's:' + v
+    if isinstance(v, dict) and 'cond' in v:
+        return 't:%d' % v['val']
+    raise ValueError(v)
+
+
+def snapshot_text(snap, names):
+    """the text MetaMergeTable.show_table prints for a _META snapshot (settings in name order)."""
+    parts = []
+    for c in names:
+        own = snap.get(c)
+        if own is None:
+            parts.append(c + '=-')
+        else:
+            parts.append(c + '=' + ','.join('%s:%s' % (k, sval_text(own[k])) for k in sorted(own)))
+    return ';'.join(parts)
+
+
+def decode_table(txt, all_fields):
+    """text printed by MetaMergeTable.show_table -> {class: None | {setting: value text}}"""
+    out = {}
+    for part in txt.split(';'):
+        c, _, body = part.partition('=')
+        if body == '-':
+            out[c] = None
+        else:
+            out[c] = {}
+            for x in body.split(','):
+                if x:
+                    k, v = x.split(':', 1)
+                    out[c][all_fields[ord(k) - 97]] = v
+    return out
+
+
+def decode_run(txt, all_fields):
+    """show_run output: snapshots separated by '#', '=' repeats the previous one."""
+    out, prev = [], None
+    for part in txt.split('#'):
+        if part != '=':
+            prev = None if part.startswith('FUEL!') else decode_table(part, all_fields)
+        out.append(prev)
+    return out
+
+
+def encode_snapshot(snap):
+    return {c: (None if own is None else {k: sval_text(v) for k, v in own.items()}) for c, own in snap.items()}
+
+
+F10P_ID = 'F10-C12-first-root-frozen-in-cached-field-parsers'
+F10T_ID = 'F10-C12-auto-assigned-tag-persists-across-roots'
+LEAK_FINDING = {'tables': F10_ID, 'parsers': F10P_ID, 'tags': F10T_ID}
+_LEAK_CACHE = {}
+
+
+def m_leak_findings(sc, i, sim_out):
+    """findings whose mechanism is needed to explain the simulated outcome of step i (switching it off changes it)."""
+    key = (json.dumps(sc, sort_keys=True), i)
+    if key not in _LEAK_CACHE:
+        out = set()
+        for mech in MultiSim.MECHANISMS:
+            if m_sim_run(sc, off=(mech,))[i][1] != sim_out:
+                out.add(LEAK_FINDING[mech])
+        if not out and m_sim_run(sc, off=MultiSim.MECHANISMS)[i][1] != sim_out:
+            out = set(LEAK_FINDING.values())
+        _LEAK_CACHE[key] = out
+    return _LEAK_CACHE[key]
+
+
+def m_eval_step(ctx, sc, i):
+    """run a stored multi-root scenario; (P0 message or None, observed, reference, simulated) for step i."""
+    res = ctx.impl('c12', {'configs': [sc], 'jobs': 1})['results'][0]
+    if 'runner_error' in res:
+        raise RuntimeError('c12_multi runner failed: %s' % res['runner_error'])
+    if res.get('setup'):
+        return 'class definition failed: %s' % res['setup'], None, None, None, res
+    hist = m_declared_history(sc)
+    bad0 = None
+    for j, (step, decl) in enumerate(zip(res['steps'], hist)):
+        bad0 = bad0 or m_check_snapshot(step['meta'], decl)
+    op = sc['ops'][i]
+    obs = m_observed(op, res['steps'][i])
+    return bad0, obs, m_spec_outcome(sc, hist[i], op), m_sim_run(sc)[i][1], res
+
+
+def run_multi(ctx):
+    scs = gen_multi(ctx)
+    # the same roots and operations alone, in pristine interpreters
+    alone, alone_key = [], {}
+    for sc in scs:
+        hist = m_declared_history(sc)
+        for i, op in enumerate(sc['ops']):
+            if op['op'] in ('dump', 'load'):
+                a = m_alone(sc, hist[i], op)
+                k = json.dumps(a, sort_keys=True)
+                if k not in alone_key:
+                    alone_key[k] = len(alone)
+                    alone.append(a)
+    results = ctx.impl('c12', {'configs': scs + alone, 'jobs': 14}, timeout=1500)['results']
+    res_multi, res_alone = results[:len(scs)], results[len(scs):]
+    # Coq table model: _META snapshots after every operation
+    model = None
+    try:
+        enc = [coq_multi(sc) for sc in scs]
+        # several small coqc runs side by side (long output strings are expensive to print)
+        import concurrent.futures as _cf
+        chunk = 30
+        groups = [enc[i:i + chunk] for i in range(0, len(enc), chunk)]
+        with _cf.ThreadPoolExecutor(max_workers=6 if ctx.tier == 'quick' else 10) as ex:
+            outs_g = list(ex.map(lambda gi: ctx.coq([e for e, _ in gi[1]], ['PyStr', 'MetaMerge', 'MetaMergeTable'], prelude=PRELUDE,
+                                                    tag='multi%d' % gi[0]), enumerate(groups)))
+        outs = [o for g in outs_g for o in g]
+        model = [(o, n_pre) for o, (_, n_pre) in zip(outs, enc)]
+    except Exception as e:  # noqa
+        ctx.broken_tie('table model evaluation failed: %s' % str(e)[:500])
+    n_ties, alone_done = 0, set()
+    for si, (sc, res) in enumerate(zip(scs, res_multi)):
+        if 'runner_error' in res:
+            raise RuntimeError('c12_multi runner failed: %s' % res['runner_error'])
+        key = json.dumps(sc, sort_keys=True)
+        n_uses = sum(1 for o in sc['ops'] if o['op'] in ('dump', 'load'))
+        ctx.count(1, key=key, nontrivial=n_uses >= 2)
+        ctx.hist('multi_family', sc['family'])
+        ctx.hist('multi_roots', len(sc['roots']))
+        ctx.hist('multi_uses', n_uses)
+        ctx.hist('multi_order', ' '.join('%s:%s' % (o['op'][0], o.get('root') or o.get('cls')) for o in sc['ops'] if o['op'] != 'define')[:40])
+        if res.get('setup'):
+            ctx.violation('multi-root scenario: class definition failed: %s' % res['setup'], {'kind': 'multi', 'scenario': sc})
+            continue
+        hist = m_declared_history(sc)
+        sim = m_sim_run(sc)
+        names = ['UA', 'UB', 'N', 'M'] + [r['name'] for r in sc['roots']]
+        for i, (op, step, decl, (sim_snap, sim_out)) in enumerate(zip(sc['ops'], res['steps'], hist, sim)):
+            what = 'multi-root history (%s), step %d (%s %s)' % (sc['family'], i, op['op'], op.get('root') or op.get('cls'))
+            snap = {c: step['meta'].get(c) for c in step['meta']}
+            # P0: the library's own writes never add a user-level setting
+            bad0 = m_check_snapshot(snap, decl)
+            if bad0:
+                ctx.violation('%s: %s' % (what, bad0), {'kind': 'multi', 'scenario': sc, 'step': i})
+            # correspondence: Coq table model == implementation's _META
+            if model is not None:
+                txt, n_pre = model[si]
+                tabs = decode_run(txt, res.get('all_fields') or [])
+                ctx.traces_validated += 1
+                want = tabs[n_pre + i] if n_pre + i < len(tabs) else None
+                got = encode_snapshot({c: snap.get(c) for c in names if c in snap})
+                if want is None or {c: want.get(c) for c in got} != got:
+                    n_ties += 1
+                    ctx.disagreements_checked += 1
+                    if n_ties <= 5:
+                        ctx.broken_tie('MetaMergeTable model and the implementation\'s _META table disagree at %s' % what,
+                                       {'scenario': sc, 'step': i, 'model': want, 'impl': got})
+            if sim_snap is not None and {c: sim_snap.get(c) for c in snap} != snap and not bad0:
+                n_ties += 1
+                if n_ties <= 5:
+                    ctx.broken_tie('table simulation and the implementation\'s _META table disagree at %s' % what,
+                                   {'scenario': sc, 'step': i, 'sim': sim_snap, 'impl': snap})
+            if op['op'] not in ('dump', 'load'):
+                if 'error' in step:
+                    ctx.violation('%s raised %s' % (what, step['error']['err']), {'kind': 'multi', 'scenario': sc, 'step': i})
+                continue
+            obs = m_observed(op, step)
+            spec = m_spec_outcome(sc, decl, op)
+            asc = m_alone(sc, decl, op)
+            ares = res_alone[alone_key[json.dumps(asc, sort_keys=True)]]
+            if 'runner_error' in ares:
+                raise RuntimeError('c12_multi runner failed: %s' % ares['runner_error'])
+            aobs = m_observed(op, ares['steps'][1]) if not ares.get('setup') else 'ERR:setup'
+            ctx.hist('multi_op', op['op'])
+            f22 = m_in_F22(sc, decl, op['root'])
+            # P2 reference point: the root alone in a pristine interpreter behaves under effective(declared) (history-free;
+            # its only listed deviations are F22 / F23, which the simulation reproduces without any history)
+            akey = json.dumps(asc, sort_keys=True)
+            if akey not in alone_done:
+                alone_done.add(akey)
+                ctx.count(1, key='alone:' + akey, nontrivial=False)
+                if aobs != spec:
+                    asim = m_sim_run(asc)[1][1]
+                    fid = F22_ID if f22 else (F23_ID if m_in_F23(sc, decl, op) else None)
+                    if os.environ.get('C12_SHOW_LEAKS'):
+                        print('ALONE', fid, what, '\n  obs ', json.dumps(aobs)[:500], '\n  spec', json.dumps(spec)[:500], '\n  ', json.dumps(asc)[:900])
+                    if fid and aobs == asim and ctx.is_open_region(fid):
+                        ctx.hist('known_region', fid)
+                    else:
+                        ctx.violation('%s ALONE in a pristine interpreter: observed %s; reference under effective(declared) %s' %
+                                      (what, json.dumps(aobs)[:400], json.dumps(spec)[:400]), {'kind': 'multi', 'scenario': asc, 'step': 1})
+            explained = (obs == sim_out)
+            if obs == spec:
+                # P1 holds; (a difference to the run alone can then only come from the deviation of the run alone, classified above)
+                if obs != aobs:
+                    ctx.hist('multi_history_hides_F22_F23', op['op'])
+            elif explained and obs == aobs and (f22 or m_in_F23(sc, decl, op)) and ctx.is_open_region(F22_ID if f22 else F23_ID):
+                ctx.hist('known_region', F22_ID if f22 else F23_ID)
+            elif explained and obs != aobs and m_leak_findings(sc, i, sim_out) and \
+                    all(ctx.is_open_region(f) for f in m_leak_findings(sc, i, sim_out)):
+                # exactly the outcome the per-class global tables of the unchanged tree produce; attributed to the
+                # mechanisms without which the simulation would predict something else
+                for f in m_leak_findings(sc, i, sim_out):
+                    ctx.hist('known_region', f)
+                ctx.hist('multi_leak', '%s: %s' % (op['op'], '+'.join(sorted(x[8:28] for x in m_leak_findings(sc, i, sim_out)))))
+                if os.environ.get('C12_SHOW_LEAKS'):
+                    print('LEAK', sorted(m_leak_findings(sc, i, sim_out)), what, '\n  obs ', json.dumps(obs)[:600], '\n  spec', json.dumps(spec)[:600],
+                          '\n  ', json.dumps({k: v for k, v in sc.items() if k != 'ops'})[:700], [(o['op'], o.get('root') or o.get('cls')) for o in sc['ops']])
+            else:
+                ctx.violation('%s: observed %s; reference under effective(declared) %s; alone in a pristine interpreter %s; '
+                              'table simulation %s' % (what, json.dumps(obs)[:300], json.dumps(spec)[:300], json.dumps(aobs)[:300],
+                                                       json.dumps(sim_out)[:300]),
+                              {'kind': 'multi', 'scenario': sc, 'step': i})
+            if not explained:
+                n_ties += 1
+                ctx.disagreements_checked += 1
+                if n_ties <= 5:
+                    ctx.broken_tie('table simulation and implementation disagree at %s' % what, {'scenario': sc, 'step': i, 'sim': sim_out, 'impl': obs})
+    ctx.notes.append('%d multi-root histories (one interpreter each) + %d single-operation pristine runs' % (len(scs), len(alone)))
+
+
 def replay(ctx, obj):
+    if obj.get('kind') == 'multi' or 'scenario' in obj:
+        sc, i = obj['scenario'], obj.get('step', len(obj['scenario']['ops']) - 1)
+        bad0, obs, spec, simo, res = m_eval_step(ctx, sc, i)
+        print(res.get('source', ''))
+        print('operations: %s' % [(o['op'], o.get('root') or o.get('cls')) for o in sc['ops']])
+        for j, st in enumerate(res.get('steps', [])):
+            print('  _META after step %d: %s' % (j, json.dumps({c: m for c, m in st['meta'].items() if m is not None})))
+        print('own-Meta invariant (declared settings + at most tag = class name): %s' % (bad0 or 'holds'))
+        print('step %d observed:                      %s' % (i, json.dumps(obs)))
+        print('step %d under effective(declared):     %s' % (i, json.dumps(spec)))
+        return bad0 is None and obs == spec
     if obj.get('kind') == 'config' or 'cfg' in obj:
         cfg = obj['cfg']
         res = ctx.impl('c12', {'configs': [cfg], 'jobs': 1})['results'][0]
